@@ -115,6 +115,30 @@ theorem transform_pixel (T : Img K → Img K) (hT : ShapePreserving T) (im : Img
   apply put_pixel _ _ _ _ _ i j hi hj
   refine ⟨?_, ?_, ?_, ?_, ?_, ?_, ?_, ?_⟩ <;> simp [(hT _).1, (hT _).2, *]
 
+
+/-- **the result depends on the method only through its action on the four symmetrised quadrants**: two half-image transforms that
+    agree on those four arrays give the same image (no other data — the raw image, another quadrant's neighbourhood, earlier calls —
+    enters the pipeline) -/
+theorem transform_congr (T T' : Img K → Img K) (im : Img K) (ax : SymAxis) (m : Mask)
+    (h0 : T (getQuadrants im ax m).q0 = T' (getQuadrants im ax m).q0)
+    (h1 : T (getQuadrants im ax m).q1 = T' (getQuadrants im ax m).q1)
+    (h2 : T (getQuadrants im ax m).q2 = T' (getQuadrants im ax m).q2)
+    (h3 : T (getQuadrants im ax m).q3 = T' (getQuadrants im ax m).q3) :
+    transformQuadrants T im ax m = transformQuadrants T' im ax m := by
+  simp only [transformQuadrants, h0, h1, h2, h3]
+
+/-- **two images with the same symmetrised quadrants are transformed to the same result** — in particular an image and its
+    symmetrised version, whenever symmetrisation is a projector on the quadrants (C06) -/
+theorem transform_depends_on_quadrants (T : Img K → Img K) (im im' : Img K) (ax : SymAxis) (m : Mask)
+    (hq : getQuadrants im ax m = getQuadrants im' ax m) (hr : im.rows = im'.rows) (hc : im.cols = im'.cols) :
+    transformQuadrants T im ax m = transformQuadrants T im' ax m := by
+  simp only [transformQuadrants, hq, hr, hc]
+
+/-- a pipeline stage applied after the method (`S ∘ T`, e.g. a per-quadrant scaling) keeps the frame of the image -/
+theorem transform_comp_shape (S T : Img K → Img K) (hS : ShapePreserving S) (hT : ShapePreserving T) (im : Img K) (ax : SymAxis)
+    (m : Mask) : (transformQuadrants (S ∘ T) im ax m).rows = im.rows ∧ (transformQuadrants (S ∘ T) im ax m).cols = im.cols :=
+  transform_shape (S ∘ T) (fun q => ⟨((hS (T q)).1).trans (hT q).1, ((hS (T q)).2).trans (hT q).2⟩) im ax m
+
 /-- With the identity "transform" the pipeline is exactly symmetrisation (C06). -/
 theorem transform_id (im : Img K) (ax : SymAxis) (m : Mask) :
     transformQuadrants id im ax m = symmetrise im ax m := rfl
